@@ -595,6 +595,13 @@ def run(ctx):
                        "LinkRoot / LinkStop / Dup / Absent (i.e. a retrace of >= 1 level, a rotation, an unlink or a splice)")
     ctx.cov["distinct_state_op_triples"] = distinct
     ctx.cov["histories"] = len(hs)
+    ctx.cov["exhaustive_spaces"] = (
+        ["every insertion order x every removal order of n distinct keys, n <= 4",
+         "every insertion order of 5 keys x 24 sampled removal orders; of 6 keys x 2",
+         "every insert/remove sequence of length 5 over 3 keys and over 4 keys (fresh node per insert)"] if ctx.quick else
+        ["every insertion order x every removal order of n distinct keys, n <= 5",
+         "every insertion order of 6 keys x 60 sampled removal orders; of 7 keys x 12",
+         "every insert/remove sequence of length 6 over 3 keys and over 4 keys (fresh node per insert)"])
     ctx.cov["corpus_histories"] = n_corpus
     ctx.cov["model_branch_hits"] = dict(sorted(tags.items()))
     missing = [t for t in ALL_TAGS if not tags.get(t)]
@@ -648,14 +655,35 @@ def run(ctx):
 
 
 def replay(ctx, path):
-    """Re-run a replay file on the current tree: exit 1 iff the property still fails on it."""
+    """Re-run the history of a replay file on the current tree; the property's oracle decides
+    (vcheck turns a ctx.report into exit status 1)."""
     obj = json.loads(Path(path).read_text())
     ops = obj["replay"]["history"]
     cbin, mbin = build(ctx)
     res = c_fails(cbin, ops)
+    ctx.count(evaluations=len(ops))
+    ctx.cov["rule"] = "replay of one recorded history on the C implementation, judged by the search oracle"
+    ctx.sample({"history": ops[:20]})
     if res is None:
-        print("replay: property holds on this history now")
+        ctx.log("replay: the property holds on this history now")
         return 0
-    print("VIOLATION property=C01 replay=%s" % path)
-    print("  ->", res[1])
+    ctx.report(key="avl/replay", what="replayed history of %d ops: %s" % (len(ops), res[1]),
+               replay={"history": ops, "failing_op_index": res[0], "violation": res[1], "replayed_from": str(path)},
+               found_input=True)
     return 1
+
+
+META = {
+    "text": "Rocq theorems for ALL finite insert/remove/search histories from the empty tree over all key sets (keys Z; an "
+            "order-only theorem shows only relative order matters): no model error reachable, BST, stored factor = "
+            "h(right)-h(left) in -1..1 at every node, exact refinement of an abstract key->node map (duplicate insert returns "
+            "the resident and leaves the tree equal, absent insert adds exactly it, remove deletes exactly it, search finds "
+            "iff present), canonical heap has consistent parent links, logarithmic height. Tie: extracted model vs the real "
+            "a_avl_insert/remove/search: left/right/parent/factor/root/return value compared after EVERY operation under "
+            "ASan+UBSan, exhaustive small histories + directed shapes + random; all 38 rebalancing case tags hit.",
+    "note": "Trusted: Coq kernel; extraction (ExtrOcamlBasic only) + OCaml/C drivers; the recursive flag-upward model stands "
+            "for the C's bottom-up loop and the pointer surgery is not modelled statement by statement - both are transferred "
+            "to the C by the exact per-operation heap comparison (checked on the generated histories, not proved); only the "
+            "packed parent pointer configuration (A_SIZE_POINTER=8) is built. No axioms.",
+    "technique": "Rocq proof (structural induction, invariants, refinement to an abstract map) + extracted-model vs C exact heap correspondence",
+}
